@@ -313,7 +313,7 @@ Qed.
 
 (* ------------------------------------------------------------------ send then receive (bytes) *)
 Definition is_code (code : bytes) : Prop :=
-  exists d1 d2 d3, code = [d1; d2; d3] /\ is_digit d1 = true /\ is_digit d2 = true /\ is_digit d3 = true.
+  exists d1 d2 d3, code = [d1; d2; d3] /\ ((49 <=? d1) && (d1 <=? 53)) = true /\ is_digit d2 = true /\ is_digit d3 = true.
 
 Fixpoint raws (code : bytes) (ls : list bytes) : list bytes :=
   match ls with
